@@ -104,6 +104,10 @@ impl<'t> Worker<'t> {
     pub fn update_connid_counts(&mut self) {
         #[cfg(vibrato_verif)]
         crate::verif::yield_point("counts:entry");
+        // No lattice is built for an empty sentence; the lattice still holds the previous one.
+        if self.sent.chars().is_empty() {
+            return;
+        }
         self.lattice
             .add_connid_counts(self.counter.as_mut().unwrap());
         #[cfg(vibrato_verif)]
